@@ -4,7 +4,7 @@ from ..core import AnalysisError, walk_local, calls_in, call_name, dotted, src, 
 from ..lib import (FuncView, pm, method_calls, one, at_least, stores_to_self_attr, const_str, path_text)
 from ..cfg import handler_names
 from .. import norm
-from .c03 import c03a, c03b, _verdict_accumulation, _msg_ctors
+from .c03 import c03a, c03b, c03g, _verdict_accumulation, _msg_ctors
 
 SEC = 'bp/app/bpsec.py'
 ENC = ('Enc0Message', 'EncMessage')
@@ -15,6 +15,8 @@ def check(chk, thorough=False):
     chk.run('C16.a', 'R-ORDER', 'for every result appended by apply_bcb the target block data was replaced by the ciphertext of an encryption message built over the target data with the external AAD', lambda ob: c16a(tree, ob), floor=2)
     chk.run('C16.b', 'R-FLOW', 'plaintext release is fail-closed: only a pycose decrypt() result, tested with "is not None" (empty plaintext is legitimate), written back only on acceptance; exceptions fail; failures accumulate', lambda ob: c16b(tree, ob), floor=8)
     chk.run('C16.c', 'sibling', 'the COSE message kinds apply_bcb can emit are the kinds verify_bcb_target handles', lambda ob: c16c(tree, ob), floor=2)
+    chk.run('C16.e', 'R-WHO', 'the verifier binds scope and protected parameters as received (= C03.g)', lambda ob: c03g(tree, ob), floor=7)
+    chk.run('C16.f', 'R-FRESH', 'one security operation object per target block: what the association hands out is copied anew for every target, so no two targets share (and overwrite) a block number', lambda ob: c16f(tree, ob), floor=2)
     chk.run('C16.d', 'R-FLOW', 'BCB uses the same external AAD construction as BIB (= C03.a/b on apply_bcb)', lambda ob: (c03a(tree, ob, 'apply_bcb'), c03b(tree, ob)), floor=8)
 
 
@@ -159,3 +161,43 @@ def c16c(tree, ob):
     raises = [r for r in walk_local(fv.func) if isinstance(r, ast.Raise) and 'TypeError' in src(r.exc)]
     if not raises:
         ob.violate(SEC, fv.qual, 'else: raise TypeError', 'an unhandled message kind does not fail the target', fv.func)
+
+
+
+def c16f(tree, ob):
+    ''' apply_bcb() encrypts the block named by each operation's tgt_blk_num.  The operations come from
+    SecAssociation.is_match(), which copies a configured template per target and stamps the block number into the copy.
+    If the copy is made once and stamped repeatedly, every entry is the same object carrying the last number: that block is
+    encrypted twice and the others leave in the clear under a BCB that lists them. '''
+    fv = FuncView(tree, SEC, 'SecAssociation.is_match')
+    apps = [c for c in calls_in(fv.func) if isinstance(c.func, ast.Attribute) and c.func.attr == 'append' and c.args and isinstance(c.args[0], ast.Name)]
+    stamps = [n for n in walk_local(fv.func) if isinstance(n, ast.Assign) and isinstance(n.targets[0], ast.Attribute) and n.targets[0].attr == 'tgt_blk_num']
+    ob.require(apps and stamps, 'is_match: result.append(<op>) and <op>.tgt_blk_num = ...')
+    FRESH = ('copy.copy', 'copy.deepcopy', 'dataclasses.replace', 'replace', 'SecOp')
+    for st in stamps:
+        var = st.targets[0].value
+        ob.require(isinstance(var, ast.Name), 'stamped object is a local name')
+        loop = enclosing(st, ast.For)
+        defs = fv.reaching_defs(var.id, st)
+        bad = None
+        if loop is None:
+            bad = 'the block number is not stamped per target'
+        for (dst, dval) in defs:
+            if bad:
+                break
+            if not (isinstance(dval, ast.Call) and (call_name(dval) or '') in FRESH):
+                bad = 'the stamped object is not a fresh copy ({})'.format(src(dst)[:50])
+            elif enclosing(dst, ast.For) is not loop:
+                bad = 'the copy ({}) is made outside the per-target loop, so every target stamps the same object'.format(src(dst)[:50])
+        if bad:
+            ob.violate(SEC, fv.qual, src(st), bad + ': all operations of one template end up with the last block number; that block is processed repeatedly and the '
+                       'other targets are listed in the BCB but stay in the clear', st)
+        else:
+            ob.site(SEC, st, 'block number stamped into a copy made in the same iteration')
+    for a in apps:
+        loop = enclosing(a, ast.For)
+        inner = [st for st in stamps if enclosing(st, ast.For) is loop and st.targets[0].value.id == a.args[0].id]
+        if not inner:
+            ob.violate(SEC, fv.qual, src(a), 'an operation is handed out without its own block number', a)
+        else:
+            ob.site(SEC, a, 'appended operation is the one stamped in this iteration')
